@@ -103,9 +103,10 @@ def oracle_C29(run):
         if obs is None or o in ('new', 'xfer', 'recv'):
             continue
         r = res(obs)
-        if r[0] == 'py' and r[1] == 'TypeError' and o in ('send_headers', 'push_stream') and _ill_typed_headers(op):
-            # a header whose name is text and whose value is bytes (or the reverse) is not a well-typed argument;
-            # the TypeError of str/bytes mixing is outside the property, but it still must not write anything
+        if r[0] == 'py' and o in ('send_headers', 'push_stream') and _ill_typed_headers(op):
+            # a header whose name is text and whose value is bytes (or the reverse), or whose value is no string at
+            # all (an int content-length), is not a well-typed argument; the TypeError / AttributeError it ends in is
+            # outside the property, but it still must not write anything
             if obs['out'] != '+.':
                 out.append(fail('raising-call-added-bytes', i, op=o, exc=r[1]))
             continue
@@ -453,6 +454,16 @@ def oracle_C20(run):
                       'StreamEnded', 'PushedStreamReceived') and getattr(e, 'stream_id', None) in R:
                 out.append(fail('event-for-a-locally-reset-stream', i, event=nm, sid=e.stream_id))
                 break
+        else:
+            # DATA for a stream the application reset is acknowledged by the library itself: every byte it took out of the
+            # connection window is on its way back (already returned by a WINDOW_UPDATE, or counted as processed and
+            # returned with the next one) - window + processed is what it was before the delivery
+            sa = obs.get('snap_after') or {}
+            if 'in_processed' in sb and 'in_processed' in sa and sa['state'] != 'CLOSED' and sa['in_max'] == sb['in_max']:
+                if sa['in_win'] + sa['in_processed'] != sb['in_win'] + sb['in_processed']:
+                    out.append(fail('data-for-reset-stream-not-credited-back', i, data_bytes=total,
+                                    before=(sb['in_win'], sb['in_processed']), after=(sa['in_win'], sa['in_processed']),
+                                    frames=[(f['name'], f['sid'], f['len']) for f in fs][:6]))
     return out
 
 
@@ -566,6 +577,30 @@ def oracle_C12(run):
                 out.append(fail('local-setting-verdict', i, want=want, got=obs['res']))
             if not want and r[0] != 'ok':
                 out.append(fail('valid-local-setting-rejected', i, got=obs['res']))
+            continue
+        if op['op'] == 'initiate_upgrade' and op.get('settings_header') and not run.world.conns[conn_of(op)].client \
+                and obs['snap_before']['state'] == 'IDLE' and not obs['snap_before']['streams']:
+            # the HTTP2-Settings value is a SETTINGS payload (RFC 7540 3.2.1): its values get the same verdicts
+            import base64
+            import binascii
+            try:
+                body = base64.urlsafe_b64decode(op['settings_header'])
+            except (binascii.Error, ValueError):
+                body = None
+            if body is not None and len(body) % 6 == 0:
+                want = 0
+                its = {}
+                for j in range(0, len(body), 6):
+                    k, v = struct.unpack('>HI', body[j:j + 6])
+                    its[k] = v          # hyperframe keeps the settings of a frame in a dict: the last value of an identifier wins
+                for k, v in its.items():
+                    want = setting_verdict(k, v)
+                    if want:
+                        break
+                if want and not (r[0] == 'exc' and r[2] == want):
+                    out.append(fail('upgrade-setting-verdict', i, want=want, got=obs['res']))
+                if not want and r[0] != 'ok':
+                    out.append(fail('valid-upgrade-settings-rejected', i, got=obs['res']))
             continue
         if not is_recv(op):
             continue
@@ -1209,6 +1244,8 @@ def oracle_C05(run):
     out = []
     import h2.events as EV
     st = {}
+    # the windows the automatic management works on are the advertised ones: own ledger (shared with C04)
+    _in_ledger(run, out)
     for i, (op, ol, ml, obs) in enumerate(run.log):
         if obs is None:
             continue
@@ -1708,8 +1745,9 @@ def oracle_C13(run):
                 out.append(fail('peer-cannot-decode-header-block', i, error=repr(e)[:120]))
                 P['taint'] = True
                 break
-            want = [((h[0] if isinstance(h[0], bytes) else h[0].encode()), (h[1] if isinstance(h[1], bytes) else h[1].encode()))
-                    for h in rec['fed']]
+            # (what hpack makes of a field that is no string: its text)
+            tb = lambda x: x if isinstance(x, bytes) else (x.encode() if isinstance(x, str) else str(x).encode())
+            want = [(tb(h[0]), tb(h[1])) for h in rec['fed']]
             if [(bytes(n), bytes(v)) for n, v in got] != want:
                 out.append(fail('decoded-block-differs-from-call', i))
                 P['taint'] = True
@@ -2131,9 +2169,27 @@ NON_OPENING = (wire.PRIORITY, wire.WINDOW_UPDATE, wire.RST_STREAM, wire.PING)
 
 def oracle_C27(run):
     out = []
+    pend = {}       # conn -> bytes delivered and not yet part of a complete frame (None: stopped tracking)
     for i, (op, ol, ml, obs) in enumerate(run.log):
         if obs is None:
             continue
+        # the receive buffer holds exactly the bytes of the frame that is still incomplete: an own count of what was
+        # delivered minus the complete frames in it, against the library's buffer length
+        if is_recv(op):
+            c0 = conn_of(op)
+            d0 = obs.get('xfer_data') if op['op'] == 'xfer' else op['data']
+            if pend.get(c0, b'') is not None and d0 is not None:
+                if res(obs)[0] != 'ok':
+                    pend[c0] = None
+                else:
+                    buf = pend.get(c0, b'') + strip_preface(run, c0, d0) if not run.world.conns[c0].client else pend.get(c0, b'') + d0
+                    while len(buf) >= 9 and len(buf) >= 9 + int.from_bytes(buf[:3], 'big'):
+                        buf = buf[9 + int.from_bytes(buf[:3], 'big'):]
+                    pend[c0] = buf
+                    n0 = buflen(ol)
+                    if n0.isdigit() and int(n0) > len(buf):
+                        out.append(fail('receive-buffer-holds-more-than-the-incomplete-frame', i, buffered=int(n0), incomplete=len(buf)))
+                        break
         # C27_bounded_every_history: the two capped stores, in every state — also after a connection error
         sa = obs.get('snap_after') or {}
         if sa.get('hdr_backlog', 0) > 64:
@@ -2207,6 +2263,15 @@ def oracle_C24(run):
                         authority[(c, op['sid'])] = None
                     else:
                         authority[(c, op['sid'])] = (v.encode('utf-8') if isinstance(v, str) else v).strip()
+        if is_recv(op) and client.get(c) and r[0] == 'ok':
+            # a promised stream's request is the one in the PUSH_PROMISE: its :authority is the stream's origin
+            import h2.events as EV24
+            for e in obs['raw_events']:
+                if isinstance(e, EV24.PushedStreamReceived):
+                    auth = [v for n, v in e.headers if (n if isinstance(n, bytes) else n.encode('utf-8')) == b':authority']
+                    if len(auth) == 1:
+                        a0 = auth[0]
+                        authority[(c, e.pushed_stream_id)] = a0 if isinstance(a0, bytes) else a0.encode('utf-8')
         if o == 'altsvc':
             origin, sid = op.get('origin'), op.get('sid')
             fr = raw_frames(obs.get('appended') or b'')
@@ -2327,6 +2392,24 @@ def oracle_C22(run):
                     continue
                 if promised not in sb['streams'] and promised in sa['streams']:
                     out.append(fail('refused-push-left-a-stream', i, state=sa['streams'][promised][0]))
+                    continue
+                # the other direction of "succeeds exactly when": a plainly valid promise (server, peer allows push, the
+                # parent is a request stream that is open or half-closed (remote), a fresh even id, a plain request
+                # block) is not refused — reserved streams do not count against MAX_CONCURRENT_STREAMS (RFC 7540 5.1.2)
+                st = sb['streams'].get(sid)
+                hs = op.get('headers') or []
+                plain = (len(hs) >= 4 and all(isinstance(h[0], bytes) and isinstance(h[1], bytes) for h in hs)
+                         and sorted(h[0] for h in hs[:4]) == [b':authority', b':method', b':path', b':scheme']
+                         and all(h[0].startswith(b'x-') and h[0] == h[0].lower().strip() and h[1] == h[1].strip() for h in hs[4:])
+                         and dict((h[0], h[1]) for h in hs[:4])[b':method'] in (b'GET', b'HEAD')
+                         and dict((h[0], h[1]) for h in hs[:4])[b':path'][:1] == b'/'
+                         and dict((h[0], h[1]) for h in hs[:4])[b':scheme'] in (b'https', b'http')
+                         and len(dict((h[0], h[1]) for h in hs[:4])[b':authority']) > 0
+                         and sum(len(h[0]) + len(h[1]) for h in hs) < 4000)
+                if (not client[c] and sb['state'] == 'SERVER_OPEN' and sb['remote'].get(2, [None])[0] == 1 and isinstance(sid, int)
+                        and isinstance(promised, int) and sid % 2 == 1 and st is not None and st[0] in ('OPEN', 'HALF_CLOSED_REMOTE')
+                        and promised % 2 == 0 and sb['hi_out'] < promised <= MAX31 and promised > 0 and plain):
+                    out.append(fail('valid-push-refused', i, got=obs['res'], parent=st[0]))
                     continue
         if is_recv(op) and client.get(c):
             data = obs.get('xfer_data') if o == 'xfer' else op['data']
@@ -2478,6 +2561,13 @@ def oracle_C25(run):
         r = res(obs)
         sa = obs['snap_after']
         if r[0] != 'ok':
+            # a fresh server handed the very value a client produced from settings the library itself accepts: refusing it
+            # loses the connection for a client that did nothing wrong
+            sb0 = obs['snap_before']
+            hdr0 = op.get('settings_header')
+            if not client[c] and sb0['state'] == 'IDLE' and not sb0['streams'] and sb0['hi_in'] == 0 and hdr0 is not None \
+                    and any(hdr0 == val for val, _ in value.values()):
+                out.append(fail('server-refused-a-client-made-settings-value', i, got=obs['res'], value=bytes(hdr0)[:80]))
             continue
         st1 = sa['streams'].get(1)
         if client[c]:
@@ -2578,6 +2668,11 @@ def oracle_C23(run):
             continue
         data = obs.get('xfer_data') if o == 'xfer' else op['data']
         rfs = raw_frames(data) if before_buf_empty(run, i, c) and buflen(ol) == '0' else None
+        if rfs is not None and len(rfs) > 1 and rfs[0]['type'] == wire.HEADERS and not (rfs[0]['flags'] & 4) and (rfs[0]['flags'] & 0x20) \
+                and all(x['type'] == wire.CONTINUATION and x['sid'] == rfs[0]['sid'] for x in rfs[1:]) \
+                and (rfs[-1]['flags'] & 4) and not any(x['flags'] & 4 for x in rfs[1:-1]):
+            # a header block in several frames: the priority fields travel in the HEADERS frame
+            rfs = [dict(rfs[0], flags=rfs[0]['flags'] | 4)]
         if rfs is None or len(rfs) != 1:
             continue
         f = rfs[0]
@@ -2605,6 +2700,12 @@ def oracle_C23(run):
                 continue
             want = d['prio']
             evs = obs['raw_events']
+            if want and want[0] == f['sid']:
+                # priority fields that make the stream depend on itself are an error in a HEADERS frame as in a PRIORITY
+                # frame: no PriorityUpdated may come out of it
+                if any(isinstance(e, EV.PriorityUpdated) and e.stream_id == f['sid'] and e.depends_on == f['sid'] for e in evs):
+                    out.append(fail('self-dependency-in-headers-accepted', i, sid=f['sid'], prio=want, events=ev_kinds(obs)))
+                continue
             heads = [e for e in evs if isinstance(e, (EV.RequestReceived, EV.ResponseReceived, EV.TrailersReceived,
                                                       EV.InformationalResponseReceived))]
             if not heads:
@@ -2639,7 +2740,37 @@ def oracle_C06(run):
             continue
         f = rfs[0]
         sid = f['sid']
+        if sid != 0 and f['type'] == wire.HEADERS and (f['flags'] & 4) and sid not in sb['streams'] and sb.get('closed') is not None \
+                and sid in sb['closed'] and len(f['payload']) <= sb['max_in'] \
+                and all(rec['res'][0] == 'ok' for rec in (obs.get('dec_recs') or [])) and len(obs.get('dec_recs') or []) == 1:
+            # a complete, decodable HEADERS frame for a stream that is closed and gone from the table: what happens depends
+            # on how it was closed, not on whose id it is — after a reset (by either side) the frame is answered with
+            # RST_STREAM(STREAM_CLOSED) and the connection goes on; after END_STREAM it is a connection error STREAM_CLOSED
+            r = res(obs)
+            by = sb['closed'][sid]
+            if by in ('SEND_RST_STREAM', 'RECV_RST_STREAM'):
+                fr = frames_of(obs.get('appended')) or []
+                if r[0] != 'ok' or sa['state'] == 'CLOSED' or not any(x['type'] == wire.RST_STREAM and x['sid'] == sid and x.get('code') == 5 for x in fr):
+                    out.append(fail('headers-on-reset-and-forgotten-stream-not-a-stream-error', i, sid=sid, closed_by=by, got=obs['res'],
+                                    state_after=sa['state']))
+            elif by in ('SEND_END_STREAM', 'RECV_END_STREAM'):
+                if not (r[0] == 'exc' and r[2] == 5 and sa['state'] == 'CLOSED'):
+                    out.append(fail('headers-on-ended-and-forgotten-stream-not-STREAM_CLOSED', i, sid=sid, closed_by=by, got=obs['res'],
+                                    state_after=sa['state']))
+            continue
         if sid == 0 or f['type'] not in (wire.DATA, wire.WINDOW_UPDATE, wire.CONTINUATION, wire.PUSH_PROMISE):
+            continue
+        if f['type'] == wire.CONTINUATION and sid in sb['streams']:
+            # no header block is being assembled (the delivery is judged only then): a CONTINUATION frame for a stream of
+            # the table is a connection error PROTOCOL_ERROR whatever the stream's state (RFC 7540 section 6.10; no row
+            # of the transition table takes RECV_CONTINUATION).  For a stream that was closed and cleaned out of the
+            # table the library answers as for any other frame on such a stream (RST_STREAM after a reset,
+            # STREAM_CLOSED after END_STREAM: `_receive_naked_continuation` says the kind of error depends on the
+            # stream's state) — that leniency is not judged here
+            r = res(obs)
+            if not (r[0] == 'exc' and r[2] == 1 and sa['state'] == 'CLOSED'):
+                out.append(fail('stray-continuation-not-PROTOCOL_ERROR', i, sid=sid, got=obs['res'], state_after=sa['state'],
+                                stream=(sb['streams'].get(sid) or ('absent',))[0]))
             continue
         if f['type'] == wire.PUSH_PROMISE and sid not in sb['streams'] and sb.get('closed') is not None and sid in sb['closed'] \
                 and sb['closed'][sid] != 'SEND_RST_STREAM':
